@@ -282,6 +282,74 @@ def decode_all(tok, F):
     return r, c
 
 
+# ------------------------------------------------------------------ extraction cross-check (DESIGN 1.3)
+XCHECK_MAX_V, XCHECK_MAX_E = 40, 80
+
+
+def coq_crosscheck(ctx, jobs, outs, all_list, mv_by_key):
+    """For a small random sample of the lattices sent to the c05 driver, every line the driver printed for the commands
+    flux / moves / all (for 'all': 16 of the 2^E bond configurations) is re-derived INSIDE Coq by vm_compute on the same
+    literals (lattice, the implementation's plaquettes, bond arrays) and must coincide.  jobs/outs: evaluate()'s flux jobs
+    and answers; all_list: the answers of the exhaustive jobs in job order; mv_by_key: lattice key -> moves answer."""
+    import xcheck as X
+    all_by_key = dict(zip([j[3] for j in jobs if j[6]], all_list))
+    small = [(j, o) for j, o in zip(jobs, outs) if "error" not in o and j[2].n_vertices <= XCHECK_MAX_V and j[2].n_edges <= XCHECK_MAX_E]
+    rng = np.random.default_rng([ctx.seed, 5, 99])
+    # half of the sample from the lattices that also have an 'all' answer
+    k = min(len(small), 8 if ctx.tier == "quick" else 80)
+    with_all = [i for i, (j, o) in enumerate(small) if j[3] in all_by_key and "error" not in all_by_key[j[3]]]
+    idx = set(rng.choice(with_all, size=min(len(with_all), k // 2), replace=False).tolist()) if with_all else set()
+    rest = [i for i in range(len(small)) if i not in idx]
+    idx |= set(rng.choice(rest, size=min(len(rest), k - len(idx)), replace=False).tolist()) if rest and k > len(idx) else set()
+    gz = X.pair(X.z, X.z)
+    body = []
+    g = lambda lhs, rhs: body.append(X.goal(lhs, rhs))
+    n_all = 0
+    for n, i in enumerate(sorted(idx)):
+        (c, arr, lat, key, _, us, exh), o = small[i]
+        L, IP, US = f"L{n}", f"IP{n}", f"US{n}"
+        S = ser_lattice_arrays(*arr)[1]
+        body.append(f"Definition {L} : lattice := {X.lattice(arr[0], arr[1], arr[2], S)}.")
+        body.append(f"Definition {IP} : list plaquette := " + X.lst(
+            lambda p: f"plaq_of_arrays {X.natlist(p.vertices)} {X.natlist(p.edges)} {X.lst(lambda d: X.boolean(int(d) == 1), p.directions)}", lat.plaquettes) + ".")
+        body.append(f"Definition {US} : list (list Z) := " + X.lst(X.zlist, us) + ".")
+        g(f"(wf_lattice {L}, no_self_loops {L})", f"({X.boolean(o['wf'][0] == '1')}, {X.boolean(o['noloops'][0] == '1')})")
+        g(f"option_map (@length plaquette) (find_all_plaquettes {L})", "None" if o["mp"][0] == "ERR" else f"Some {X.nat(o['mp'][0])}")
+        bl = lambda toks: X.lst(lambda t: X.boolean(t == "1"), toks[1:])
+        g(f"map (plaq_consistent {L}) {IP}", bl(o["icons"]))
+        g(f"map (fun p => nodupb (p_edges p)) {IP}", bl(o["inodup"]))
+        if o["icover"][0] != "skip":
+            g(f"darts_cover {L} {IP}", X.boolean(o["icover"][0] == "1"))
+        g(f"map all_pm1 {US}", X.lst(lambda t: X.boolean(t == "1"), [o[f"pm{q}"][0] for q in range(len(us))]))
+        if o["mp"][0] != "ERR":
+            g(f"option_map (fun ps => map (fun u => (fluxes_real u ps, fluxes_cplx u ps)) {US}) (find_all_plaquettes {L})",
+              "Some " + X.lst(lambda q: f"({X.zlist(zlist(o[f'mr{q}']))}, {X.lst(gz, zpairs(o[f'mc{q}']))})", range(len(us))))
+        g(f"map (fun u => (fluxes_real u {IP}, fluxes_cplx u {IP}, map (fun p => flux_spec u (plaq_darts p)) {IP}, fluxes_to_labels (fluxes_real u {IP}))) {US}",
+          X.lst(lambda q: f"({X.zlist(zlist(o[f'ir{q}']))}, {X.lst(gz, zpairs(o[f'ic{q}']))}, {X.zlist(zlist(o[f'is{q}']))}, {X.zlist(zlist(o[f'lab{q}']))})", range(len(us))))
+        m = mv_by_key.get(key)
+        if m is not None and "error" not in m:
+            cg = Cursor(m["gauge"]); mg = cg.list(lambda: cg.list(cg.z))
+            cf = Cursor(m["flip"]); mf = cf.list(lambda: cf.list(cf.z))
+            g(f"map (fun v => gauge {L} v (hd [] {US})) (seq 0 (nV {L}))", X.lst(X.zlist, mg))
+            g(f"map (fun e => flip_at e (hd [] {US})) (seq 0 (nE {L}))", X.lst(X.zlist, mf))
+        ao = all_by_key.get(key)
+        if ao is not None and "error" not in ao and ao["mp"][0] != "ERR":
+            E, F = lat.n_edges, int(ao["mp"][0])
+            ns = sorted(rng.choice(1 << E, size=min(1 << E, 16), replace=False).tolist())
+            dec = [decode_all(ao["all"][q], F) for q in ns]
+            if all(d is not None for d in dec):
+                # u_n[k] = 1 - 2*bit_k(n) (the driver's enumeration, and exhaustive_tables()'s)
+                g(f"option_map (fun ps => map (fun u => (fluxes_real u ps, fluxes_cplx u ps)) "
+                  + X.lst(lambda q: X.zlist([1 - 2 * ((q >> b) & 1) for b in range(E)]), ns) + f") (find_all_plaquettes {L})",
+                  "Some " + X.lst(lambda d: f"({X.zlist(d[0])}, {X.lst(lambda w: gz((int(w.real), int(w.imag))), d[1])})", dec))
+                n_all += 1
+    res = ctx.res
+    res.extra["extraction_crosscheck_goals_vm_compute"] = X.compile_goals("c05", "Model.Lattice Model.Flux", body, "c05")
+    res.extra["extraction_crosscheck_lattices"] = len(idx)
+    res.extra["extraction_crosscheck_lattices_with_all_u_sample"] = n_all
+    res.extra["extraction_crosscheck_wall_s"] = X.LAST_WALL
+
+
 # ------------------------------------------------------------------ main evaluation
 def evaluate(ctx, cases, label, n_u=3, exhaustive_max=10, exhaustive_cap=None, max_moves=40, forced_u=None):
     res = ctx.res
@@ -340,7 +408,8 @@ def evaluate(ctx, cases, label, n_u=3, exhaustive_max=10, exhaustive_cap=None, m
         lines.append("flux " + line + " " + ser_plaquettes(lat) + " " + str(len(us)) + " " + " ".join(ser_u(u) for u in us))
     outs = run_driver_parallel(ctx.exe["c05"], lines)
     all_lines = ["all " + ser_lattice_arrays(*arr)[0] for c, arr, lat, key, rng, us, exh in jobs if exh]
-    all_outs = iter(run_driver_parallel(ctx.exe["c05"], all_lines))
+    all_list = run_driver_parallel(ctx.exe["c05"], all_lines)
+    all_outs = iter(all_list)
     mv_jobs = [j for j in jobs if j[2].n_vertices * j[2].n_edges <= 600]
     mv_outs = run_driver_parallel(ctx.exe["c05"], ["moves " + ser_lattice_arrays(*j[1])[0] + " " + ser_u(j[5][0]) for j in mv_jobs])
     mv_by_key = {j[3]: o for j, o in zip(mv_jobs, mv_outs)}
@@ -462,6 +531,8 @@ def evaluate(ctx, cases, label, n_u=3, exhaustive_max=10, exhaustive_cap=None, m
         res.sample({"case": c, "V": V, "E": E, "plaquettes": F, "u": [int(x) for x in us[0]][:24],
                     "fluxes": exact_ints(fluxes_from_ujk(lat, us[0]))[:24], "closed": bool(closed_impl), "exhaustive_u": bool(exh)})
     res.extra["evaluate_seconds_" + label] = round(time.time() - t_start, 1)
+    if label == "K":
+        coq_crosscheck(ctx, jobs, outs, all_list, mv_by_key)     # extraction cross-check: a sample of the driver's answers re-derived inside Coq
 
 
 RULE = ("lattice families of DESIGN 1.5 (C01's input space) restricted to lattices without self-loops and with >= 1 plaquette, deduplicated by array hash; "
